@@ -1,15 +1,23 @@
-PROP = dict(
-    id="C07",
-    level="proof",
-    functions=["_BatchJobs.__init__", "_BatchJobs.try_append", "_BatchJobs.are_blocking_jobs_present", "_BatchJobs.is_job_blocked",
-               "HpcSubmitter._make_batch", "HpcManagerV._get_interface", "HpcManagerV.submit", "HpcSubmitterT._create_run_script", "HpcSubmitter._make_async_submitter", "HpcSubmitter._get_available_jobs", "AsyncHpcSubmitter.run"],
-    native=["_BatchJobs.__init__", "_BatchJobs.try_append", "_BatchJobs.is_job_blocked", "HpcSubmitter._make_batch"],
-    records=["_BatchJobs", "Job", "SubmitterParams", "SubmissionGroup", "HpcSubmitter"],
-    min_obligations=1000,
-    assumptions=[
-        "configuration domain: per_node_batch_size >= 1 when not time-based; num_parallel_processes_per_node and every estimated_run_minutes set (>= 0) when time-based (enforced by the CLI / run_checks, not by these functions)",
-        "job names in available_jobs are pairwise distinct and registered in the configuration (established by Cluster.create from JobContainerByName, C17)",
-    ],
-    not_decided=["that the estimate is truthful", "walltime string parsing (_to_timedelta regex): bounded stand-in only"],
-    explanation="Inv_B (size/time limit) is a representation invariant of _BatchJobs proved for __init__/try_append; _make_batch's postcondition gives one-group batches whose blocked jobs have all blockers inside the batch.",
-)
+PROP = {'id': 'C07',
+ 'level': 'proof',
+ 'functions': ['_BatchJobs.__init__',
+               '_BatchJobs.try_append',
+               '_BatchJobs.are_blocking_jobs_present',
+               '_BatchJobs.is_job_blocked',
+               'HpcSubmitter._make_batch',
+               'HpcManagerV._get_interface',
+               'HpcManagerV.submit',
+               'HpcSubmitterT._create_run_script',
+               'HpcSubmitter._make_async_submitter',
+               'HpcSubmitter._get_available_jobs',
+               'AsyncHpcSubmitter.run'],
+ 'native': ['_BatchJobs.__init__', '_BatchJobs.try_append', '_BatchJobs.is_job_blocked', 'HpcSubmitter._make_batch'],
+ 'records': ['_BatchJobs', 'Job', 'SubmitterParams', 'SubmissionGroup', 'HpcSubmitter'],
+ 'min_obligations': 1000,
+ 'assumptions': ['configuration domain: per_node_batch_size >= 1 when not time-based; num_parallel_processes_per_node and every estimated_run_minutes set (>= '
+                 '0) when time-based (enforced by the CLI / run_checks, not by these functions)',
+                 'job names in available_jobs are pairwise distinct and registered in the configuration (established by Cluster.create from '
+                 'JobContainerByName, C17)'],
+ 'not_decided': ['that the estimate is truthful', 'walltime string parsing (_to_timedelta regex): bounded stand-in only'],
+ 'explanation': "Inv_B (size/time limit) is a representation invariant of _BatchJobs proved for __init__/try_append; _make_batch's postcondition gives "
+                'one-group batches whose blocked jobs have all blockers inside the batch.'}
